@@ -529,3 +529,21 @@ func verifPoolPut(bp *bufferPool, buf []byte) error {
 }
 
 var _ = heap.Init
+
+// VerifEntropyNearReseed positions the global entropy source k draws before its periodic reseed
+// (reseedInterval draws apart), so that runs of ordinary length cross the reseed boundary.
+func VerifEntropyNearReseed(k uint64) bool {
+	switch r := entropy.(type) {
+	case *rngAES:
+		r.mutex.Lock()
+		r.count = reseedInterval - k
+		r.mutex.Unlock()
+		return true
+	case *rngChacha8:
+		r.mutex.Lock()
+		r.count = reseedInterval - k
+		r.mutex.Unlock()
+		return true
+	}
+	return false
+}
